@@ -79,6 +79,16 @@ variable (g : G) (ty : Nat) (b : Bool) (n : Nat)
 @[simp] theorem invoke_invoked (i : Nat) (c : Option Nat) (v : Option Exec) :
     (g.invoke i c v).invoked = g.invoked ++ [i] := rfl
 
+@[simp] theorem markSet_subs (p : Nat) : (g.markSet p).subs = g.subs := rfl
+@[simp] theorem markSet_invoked (p : Nat) : (g.markSet p).invoked = g.invoked := rfl
+@[simp] theorem markSet_jobs (p : Nat) : (g.markSet p).jobs = g.jobs := rfl
+@[simp] theorem markSet_ran (p : Nat) : (g.markSet p).ran = g.ran := rfl
+@[simp] theorem markSet_submitCalls (p : Nat) : (g.markSet p).submitCalls = g.submitCalls := rfl
+@[simp] theorem markSet_cAlloc (p : Nat) : (g.markSet p).cAlloc = g.cAlloc := rfl
+@[simp] theorem markSet_cFree (p : Nat) : (g.markSet p).cFree = g.cFree := rfl
+@[simp] theorem markSet_fAlloc (p : Nat) : (g.markSet p).fAlloc = g.fAlloc := rfl
+@[simp] theorem markSet_fFree (p : Nat) : (g.markSet p).fFree = g.fFree := rfl
+
 @[simp] theorem doneAcct_subs : (doneAcct ty b g).subs = g.subs := by
   unfold doneAcct; repeat' split
   all_goals rfl
